@@ -223,6 +223,8 @@ def gen_ops(rng, store, defaults, *, n_ops, conf_events, aliasing, options=None,
                         vals = []       # reset by another controller: the bare keyword; the view shows the (typed) default
                 else:
                     vals = [v for v in [cfg.wire(rng.choice(SCALARS[n]))] if v != ''] if rng.random() < 0.7 else []
+                    if tab.types[n] in ('String', 'Filename') and rng.random() < 0.15:
+                        vals = ['']       # set to the empty string ("Key=" in the announcement): one value, not none
                 changes.append([spell(n), vals])
             do(['conf', changes])
     while inflight:
